@@ -15,6 +15,8 @@ mod polyops;
 mod c01;
 mod c02;
 mod c11;
+mod c07;
+mod c06;
 mod c05;
 mod c14;
 mod c13;
@@ -28,6 +30,7 @@ mod c08;
 mod c16;
 mod c17;
 mod c19;
+mod c20;
 
 use std::io::{BufRead, Write};
 use util::Obs;
@@ -40,6 +43,8 @@ fn table(prop: &str) -> Option<(GenFn, RunFn)> {
         "C01" => Some((c01::generate, c01::run)),
         "C02" => Some((c02::generate, c02::run)),
         "C11" => Some((c11::generate, c11::run)),
+        "C07" => Some((c07::generate, c07::run)),
+        "C06" => Some((c06::generate, c06::run)),
         "C05" => Some((c05::generate, c05::run)),
         "C14" => Some((c14::generate, c14::run)),
         "C13" => Some((c13::generate, c13::run)),
@@ -53,6 +58,7 @@ fn table(prop: &str) -> Option<(GenFn, RunFn)> {
         "C16" => Some((c16::generate, c16::run)),
         "C17" => Some((c17::generate, c17::run)),
         "C19" => Some((c19::generate, c19::run)),
+        "C20" => Some((c20::generate, c20::run)),
         "POLY" => Some((polyops::generate, polyops::run)),
         _ => None,
     }
@@ -78,6 +84,19 @@ fn main() {
                 writeln!(out, "{line}").unwrap();
             };
             generate(seed, thorough, &mut emit);
+        }
+        "run" if args[1] == "C20" => {
+            // needs a compiler in the loop: the whole batch goes into one generated crate
+            util::silence_panics();
+            let lines: Vec<String> = std::io::stdin().lock().lines().map(|l| l.unwrap()).filter(|l| !l.trim().is_empty()).collect();
+            for o in c20::run_batch(&lines) {
+                let oracle = match o.oracle {
+                    None => "-".to_string(),
+                    Some(Ok(())) => "ok".to_string(),
+                    Some(Err(e)) => format!("FAIL {e}"),
+                };
+                writeln!(out, "{}\t{}", o.obs, oracle).unwrap();
+            }
         }
         "run" => {
             util::silence_panics();
